@@ -68,6 +68,13 @@ var dests = []*net.UDPAddr{
 	{IP: net.ParseIP("ff02::1:2"), Port: 547, Zone: "7"},
 }
 
+// how many transmissions of a call with a negative try count are observed before it is cancelled (more than the 10 of
+// RFC 8415's REQ_MAX_RC and the 4/5 of RFC 2131 implementations)
+const unboundedObserved = 13
+
+// respNonce: which datagram answers (the nonce decides its size: 4 and 7 give exactly 1500 and 1499 octets)
+func respNonce(sc scenario) int { return []int{1, 4, 1, 7, 2}[(sc.Dest+sc.Accept+sc.Extra)%5] }
+
 func fam(name string) cli.Family {
 	if name == "nclient4" {
 		return cli.V4{}
@@ -124,7 +131,7 @@ func run(t *testing.T, sc scenario, want []byte, xid uint32) (res result) {
 					return
 				}
 				n := conn.Reads()
-				conn.Inject(sconn.Datagram{B: f.Datagram("matching", xid, 1, f.AcceptType()), From: dests[sc.Dest], Nonce: 1, Class: "matching"})
+				conn.Inject(sconn.Datagram{B: f.Datagram("matching", xid, respNonce(sc), f.AcceptType()), From: dests[sc.Dest], Nonce: respNonce(sc), Class: "matching"})
 				conn.WaitReads(n + 1)
 			}
 		}
@@ -137,7 +144,7 @@ func run(t *testing.T, sc scenario, want []byte, xid uint32) (res result) {
 		}()
 		tries := sc.N
 		if tries < 0 {
-			tries = 10 // unbounded retries: observe the first 10 transmissions, then cancel
+			tries = unboundedObserved // unbounded retries: observe the first transmissions, then cancel
 		}
 		horizon := sc.T * time.Duration((int64(1)<<uint(tries))-1)
 		if sc.Accept >= 0 {
@@ -154,7 +161,7 @@ func run(t *testing.T, sc scenario, want []byte, xid uint32) (res result) {
 			time.Sleep(tryStart + off)
 			synctest.Wait() // the try's transmission (if any at this instant) has happened
 			if sc.Off != "inwrite" {
-				conn.Inject(sconn.Datagram{B: f.Datagram("matching", xid, 1, f.AcceptType()), From: dests[sc.Dest], Nonce: 1, Class: "matching"})
+				conn.Inject(sconn.Datagram{B: f.Datagram("matching", xid, respNonce(sc), f.AcceptType()), From: dests[sc.Dest], Nonce: respNonce(sc), Class: "matching"})
 			}
 			synctest.Wait()
 			at := time.Since(start)
@@ -220,7 +227,7 @@ func judge(r *mon.Rec, t *testing.T, sc scenario) {
 	}
 	tries := sc.N
 	if tries < 0 {
-		tries = 10
+		tries = unboundedObserved
 	}
 	expWrites := tries
 	if sc.Accept >= 0 {
@@ -277,7 +284,7 @@ func judge(r *mon.Rec, t *testing.T, sc scenario) {
 		tryStart := sc.T * time.Duration((int64(1)<<uint(sc.Accept))-1)
 		tryLen := sc.T * time.Duration(int64(1)<<uint(sc.Accept))
 		off := map[string]time.Duration{"start": 0, "inwrite": 0, "middle": tryLen / 2, "last": tryLen - 1}[sc.Off]
-		if !res.returned || res.err != nil || !res.gotMsg || res.resp.Nonce != 1 {
+		if !res.returned || res.err != nil || !res.gotMsg || res.resp.Nonce != respNonce(sc) {
 			bad("response-not-returned", "response accepted in try %d was not returned: returned=%v err=%v nonce=%d", sc.Accept, res.returned, res.err, res.resp.Nonce)
 			return
 		}
